@@ -283,6 +283,7 @@ func execOpCase(prop string, sp *opCase) run.Result {
 	if opDef != nil {
 		opFacts(r.Merged.Schema, doc, opDef, sp.Op.Variables, tags)
 		routeFacts(r.Merged.Schema, opDef, r.Merged.TypeURLMap.Get, tags)
+		keyReuseRouted(r.Merged.Schema, opDef, r.Merged.TypeURLMap.Get, tags)
 	}
 	ref := engine.Execute(r.Mono, engine.Request{Query: sp.Op.Query, Variables: sp.Op.Variables, OperationName: sp.Op.OperationName}, r.Data, "")
 	if len(ref.Errors) > 0 {
